@@ -242,3 +242,113 @@ class SymDict(dict):
 
     def __reversed__(self):
         return reversed(self.s_keys())
+
+
+class SymSet(set):
+    """set/frozenset that tolerates symbolic members (kept pairwise distinct under the
+    path condition; membership forks on equality).  Iteration order = insertion order."""
+
+    def __init__(self, items=(), frozen=False):
+        super().__init__()
+        self._items = []
+        self._frozen = frozen
+        for x in items:
+            self.s_add(x)
+
+    def _find(self, x):
+        x = _norm(x)
+        if not sym_key(x):
+            for i, k in enumerate(self._items):
+                if not sym_key(k) and k == x:
+                    return i
+            for i, k in enumerate(self._items):
+                if sym_key(k) and bool(_keq(k, x)):
+                    return i
+            return -1
+        for i, k in enumerate(self._items):
+            if bool(_keq(k, x)):
+                return i
+        return -1
+
+    def s_add(self, x):
+        x = _norm(x)
+        if self._find(x) < 0:
+            self._items.append(x)
+            if not sym_key(x):
+                set.add(self, x)
+
+    def s_contains(self, x):
+        return self._find(x) >= 0
+
+    def add(self, x):
+        if self._frozen:
+            raise AttributeError("'frozenset' object has no attribute 'add'")
+        self.s_add(x)
+
+    def discard(self, x):
+        i = self._find(x)
+        if i >= 0:
+            k = self._items.pop(i)
+            if not sym_key(k):
+                set.discard(self, k)
+
+    def remove(self, x):
+        i = self._find(x)
+        if i < 0:
+            raise KeyError(x)
+        k = self._items.pop(i)
+        if not sym_key(k):
+            set.discard(self, k)
+
+    def clear(self):
+        self._items.clear()
+        set.clear(self)
+
+    def update(self, *others):
+        for o in others:
+            for x in o:
+                self.s_add(x)
+
+    def __contains__(self, x):
+        return self.s_contains(x)
+
+    def __iter__(self):
+        return iter(list(self._items))
+
+    def __len__(self):
+        return len(self._items)
+
+    def __bool__(self):
+        return bool(self._items)
+
+    def copy(self):
+        return SymSet(self._items, self._frozen)
+
+    def issuperset(self, other):
+        return all(self.s_contains(x) for x in other)
+
+    def issubset(self, other):
+        o = other if isinstance(other, SymSet) else SymSet(other)
+        return all(o.s_contains(x) for x in self._items)
+
+    def isdisjoint(self, other):
+        return not any(self.s_contains(x) for x in other)
+
+    def __eq__(self, other):
+        if not isinstance(other, (set, frozenset)):
+            return False
+        o = other if isinstance(other, SymSet) else SymSet(other)
+        return len(o) == len(self) and self.issuperset(o)
+
+    def __ne__(self, other):
+        return not self.__eq__(other)
+
+    __hash__ = None
+
+    def __or__(self, other):
+        r = self.copy()
+        r.update(other)
+        return r
+
+    def __repr__(self):
+        return "SymSet(" + ", ".join(map(repr, self._items)) + ")"
